@@ -110,3 +110,17 @@ Definition chkCr (c : caseC) : bool :=
   && Nat.eqb (pact s') ia && fclose 0 0 (ptime s') it
   && fclose (0x1p-30 * (ihop + 0x1p-40)) 0x1p-30 hp ihop
   && fclose 0x1p-30 0x1p-30 (acc c') pc1 && fclose 0 0 (zeta c') zc1 && fclose_l 0 0 (zlist c') zl1.
+
+(* A-FSSH pass with augmented_integration = "rk4": caseA layout (the eigh answer for the previous propagator is not used) *)
+Definition chkAr (c : caseA) : bool :=
+  let '(n, m, dt, pois, zeta, (Hp, tp, Fp), (H0, t0, F0), (H1, t1, F1), fm1, (epsR, coR), (lam, Cm), etas,
+        ((x, v, rho, a, t), lastv, dR, dP), ((ix, iv, irho, ia, it), idR, idP, icoll)) := c in
+  let s := mkA (mkT x v rho a t) lastv dR dP in
+  let '(s', _, coll) := step_af_rk4 FOps n m dt pois zeta (mkElec Hp tp Fp) (mkElec H0 t0 F0) (mkElec H1 t1 F1) fm1 lam Cm etas s in
+  fclose_l (0x1p-44 * lmaxa ix) 0 (px (ab s')) ix
+  && fclose_l (0x1p-36 * lmaxa iv) 0 (pv (ab s')) iv
+  && cclose_ll 0x1p-38 (prho (ab s')) irho
+  && Nat.eqb (pact (ab s')) ia && fclose 0 0 (ptime (ab s')) it
+  && cclose_lll (0x1p-36 * (cmaxabs_l idR + 0x1p-60)) (adelR s') idR
+  && cclose_lll (0x1p-36 * (cmaxabs_l idP + 0x1p-60)) (adelP s') idP
+  && Bool.eqb coll icoll.
